@@ -100,7 +100,7 @@ func (pe *pathExplorer) block(b *ssa.BasicBlock, env boolEnv) {
 			if v := evalBool(x.Cond, env); v != 0 {
 				want = v
 			} else if pe.assume != nil {
-				fs := condFacts(x.Cond, true, x)
+				fs := condFactsRaw(x.Cond, true, x)
 				if len(fs) == 1 {
 					if d, t := pe.assume(fs[0]); d {
 						if t {
